@@ -38,6 +38,7 @@ package transport
 //gvc:  sink SetReference requires name: strid(ref.n) == strid(cmd.Name) && ref.h == cmd.New
 //gvc:  sink SetReference requires present: st.#has[keyid(cmd.New)]
 //gvc:  sink setStatus requires reported: arg3 == nil ==> ite(forall(k, 0, 32, cmd.New.hash[k] == 0), st.#refs[strid(cmd.Name)] == 0, st.#refs[strid(cmd.Name)] != 0 && field(st.#refs[strid(cmd.Name)], "plumbing.Reference.h") == cmd.New)
+//gvc:  sink setStatus requires kept: has(arg0, arg2) ==> arg0[arg2] != nil
 //gvc:  sink RemoveReference requires cas: st.#refs[strid(cmd.Name)] != 0 && forall(k, 0, 32, field(st.#refs[strid(cmd.Name)], "plumbing.Reference.h").hash[k] == cmd.Old.hash[k])
 //gvc:end
 
